@@ -279,9 +279,33 @@ def multiplicity(prog: Program, rep: Report) -> None:
     ok = len(d) == 1 and any(unparse(x) == "self._df['mult'] = 1" for x in d[0].body)
     rep.check(rule, init.qual, "missing mult column defaults to 1", ok, what_bad="rows without mult release no / undefined numbers of particles", what_ok="mult = 1", loc=init.loc())
     rr = prog.func("release.ParticleReleaser.read_release_file")
-    dt = [n for n in walk_no_nested(rr.node) if isinstance(n, ast.Assign) and unparse(n.targets[0]) == "dtypes"]
-    ok = bool(dt) and ("mult=int" in unparse(dt[0].value) or "'mult': int" in unparse(dt[0].value))
-    rep.check(rule, rr.qual, "mult is read as an integer", ok, what_bad="repeat() needs integer counts", what_ok="int", loc=rr.loc())
+    # the keyword arguments that reach pd.read_csv, however the dictionaries are put together: the
+    # function is evaluated on symbolic arguments and the call is intercepted
+    from ..confeval import Opaque, Scenario, run_function, text_of
+
+    seen_dtypes = []
+
+    def hook(e, env, ev):
+        if unparse(e.func).endswith("read_csv"):
+            kws = {}
+            for k in e.keywords:
+                v = ev.ev(k.value, env)
+                if k.arg is None:
+                    if isinstance(v, dict):
+                        kws.update(v)
+                else:
+                    kws[k.arg] = v
+            seen_dtypes.append(kws.get("dtype"))
+            return Opaque((), "frame")
+        return NotImplemented
+
+    outs = run_function(prog, "release", "ParticleReleaser.read_release_file", lambda: dict(rls_file=Opaque((), "rls_file"), names=Opaque((), "names"), datatypes=Opaque((), "datatypes")), Scenario(), call_hook=hook)
+    unsupported = [o["detail"] for o in outs if o["status"] == "unsupported"]
+    if unsupported or not seen_dtypes:
+        rep.add(rule, rr.qual, "mult is read as an integer", None, f"the keyword arguments of read_csv could not be evaluated ({unsupported[:1]})", rr.loc())
+    else:
+        ok = all(isinstance(d, dict) and text_of(d.get("mult")) == "int" for d in seen_dtypes)
+        rep.check(rule, rr.qual, "mult is read as an integer", ok, what_bad=f"repeat() needs integer counts; read_csv gets dtype {[text_of(d.get('mult')) if isinstance(d, dict) else text_of(d) for d in seen_dtypes]} for mult", what_ok="int", loc=rr.loc())
     tot = [n for n in walk_no_nested(init.node) if isinstance(n, ast.Assign) and unparse(n.targets[0]) == "self.total_particle_count"]
     ok_tot = False
     tot_txt = unparse(tot[0].value) if tot else ""
